@@ -75,6 +75,13 @@ def make_member(rng, d, k, kinds):
         props["r1"] = {"$ref": "#/definitions/a"}
         props["r2"] = {"$ref": R.ROOT_URL + "#/definitions/b"}
         props["r3"] = {"$ref": "#/definitions/deep"}
+        # names whose pointer spelling is not a fixed point of unescaping / percent-decoding: the key "~1" is written
+        # "~01", and a second unescape would turn it into the key "/" (which exists too, with another meaning)
+        hostile = [("~1", "~01"), ("/", "~1"), ("~0", "~00"), ("~", "~0"), ("~01", "~001"), ("%25", "%2525"), ("%", "%25"),
+                   ("%2525", "%252525"), ("a~1b", "a~01b"), ("a/b", "a~1b")]
+        for j, (key, spelled) in enumerate(rng.sample(hostile, 6)):
+            defs[key] = rng.choice(LEAVES)
+            props["h%d" % j] = {"$ref": "#/definitions/" + spelled}
     if "remote" in kinds:
         doc = {"definitions": {"q": rng.choice(LEAVES)}, "items": {"$ref": "#/definitions/q"}}
         hdoc = {"properties": {"v": rng.choice(LEAVES)}}
